@@ -126,7 +126,7 @@ Definition grav_body_PE (gvec:Vec3 T) (zoff:T) (pe:T) (b:gbody) : T :=
   if ex then pe else pe - m * (v3_dot K gvec (pt_G X com) + zoff).
 Definition grav_F (gvec:Vec3 T) (bs:list gbody) : list (SpatialVec T) := sv_zero :: map (grav_body_F gvec) bs.
 Definition grav_PE (gvec:Vec3 T) (zoff:T) (bs:list gbody) : T := fold_left (grav_body_PE gvec zoff) bs 0.
-(** UniformGravity(g, zeroHeight): pe -= m (g.com_G + zeroHeight);  Gravity(d, g, z): gravity = g d, pe -= m (gravity.com_G + g z) *)
+(** UniformGravity(g, zeroHeight): pe -= m (g.com_G + |g| zeroHeight) (since fix 6270af84);  Gravity(d, g, z): gravity = g d, pe -= m (gravity.com_G + g z) *)
 Definition gravity_vec (g:T) (d:Vec3 T) : Vec3 T := v3_scale K g d.
 
 (** *** Force::GlobalDamper *)
@@ -243,7 +243,7 @@ Definition ev_consttorque (Xs:list (Transform T)) (nu b:nat) t : out :=
 Definition ev_globaldamper (Xs:list (Transform T)) (us:list T) c : out :=
   (zeros (length Xs), globaldamper_f c us, 0).
 Definition ev_uniformgravity (nu:nat) (g:Vec3 T) (zeroHeight:T) (bs:list gbody) : out :=
-  (grav_F g bs, zeros_s nu, grav_PE g zeroHeight bs).
+  (grav_F g bs, zeros_s nu, grav_PE g (v3_norm K g * zeroHeight) bs).
 Definition ev_gravity (nu:nat) (d:Vec3 T) (g z:T) (bs:list gbody) : out :=
   (grav_F (gravity_vec g d) bs, zeros_s nu, grav_PE (gravity_vec g d) (g * z) bs).
 Definition ev_bushing Xs Vs (nu b1 b2:nat) XB1F XB2M k c : out :=
